@@ -7,30 +7,37 @@ use std::path::PathBuf;
 #[serde(tag = "type", rename_all = "snake_case")]
 pub enum SyncEvent {
     Start {
+        #[serde(serialize_with = "lossy_path")]
         source: PathBuf,
+        #[serde(serialize_with = "lossy_path")]
         destination: PathBuf,
         total_files: usize,
     },
     Create {
+        #[serde(serialize_with = "lossy_path")]
         path: PathBuf,
         size: u64,
         bytes_transferred: u64,
     },
     Update {
+        #[serde(serialize_with = "lossy_path")]
         path: PathBuf,
         size: u64,
         bytes_transferred: u64,
         delta_used: bool,
     },
     Skip {
+        #[serde(serialize_with = "lossy_path")]
         path: PathBuf,
         reason: String,
     },
     Delete {
+        #[serde(serialize_with = "lossy_path")]
         path: PathBuf,
     },
     #[allow(dead_code)] // Event for error reporting
     Error {
+        #[serde(serialize_with = "lossy_path")]
         path: PathBuf,
         error: String,
     },
@@ -47,8 +54,11 @@ pub enum SyncEvent {
     #[allow(dead_code)] // Event for verify-only mode (Phase 5c)
     VerificationResult {
         files_matched: usize,
+        #[serde(serialize_with = "lossy_paths")]
         files_mismatched: Vec<PathBuf>,
+        #[serde(serialize_with = "lossy_paths")]
         files_only_in_source: Vec<PathBuf>,
+        #[serde(serialize_with = "lossy_paths")]
         files_only_in_dest: Vec<PathBuf>,
         errors: Vec<VerificationError>,
         duration_secs: f64,
@@ -75,9 +85,24 @@ pub enum SyncEvent {
 
 #[derive(Debug, Serialize)]
 pub struct VerificationError {
+    #[serde(serialize_with = "lossy_path")]
     pub path: PathBuf,
     pub error: String,
     pub action: String,
+}
+
+/// Paths are reported lossily: a file name that is not valid UTF-8 must not make
+/// the whole event unserialisable (the event would silently be missing from the
+/// stream while the summary still counts it)
+fn lossy_path<S: serde::Serializer>(
+    path: &std::path::Path,
+    serializer: S,
+) -> Result<S::Ok, S::Error> {
+    serializer.serialize_str(&path.to_string_lossy())
+}
+
+fn lossy_paths<S: serde::Serializer>(paths: &[PathBuf], serializer: S) -> Result<S::Ok, S::Error> {
+    serializer.collect_seq(paths.iter().map(|p| p.to_string_lossy()))
 }
 
 impl SyncEvent {
